@@ -70,7 +70,10 @@ def render_tokens(toks, rng=None, canonical=True):
             sep = sep + rng.choice(["", " ", "\t"])
         out.append(sep)
         prev_line_comment = False
-        if k == "str":
+        if k == "str" and int(t.get("nlin", 0)) > 0:
+            # a value spanning lines: literal newlines inside double quotes
+            out.append('"' + t["v"].replace("\\", "\\\\").replace('"', '\\"') + '"')
+        elif k == "str":
             out.append(render_str(t["v"], None if canonical else rng))
         elif k == "cmt":
             nxt = toks[i + 1] if i + 1 < len(toks) else None
@@ -81,7 +84,7 @@ def render_tokens(toks, rng=None, canonical=True):
                     style = rng.choice(["#", "//", "/*"])
                 else:
                     style = "/*"
-            if style in ("#", "//") and not can_line:
+            if style in ("#", "//") and (not can_line or "\n" in t["v"]):
                 style = "/*"
             if style == "/*":
                 out.append("/* %s */" % t["v"])
